@@ -398,6 +398,21 @@ int good_find(const cJSON * const object, const cJSON * const target, const size
     return 0;
 }
 
+/* ORD2: a cursor taken before the members are sorted */
+static void sort_object(cJSON * const object, const cJSON_bool case_sensitive) { (void)object; (void)case_sensitive; }
+void bad_ORD2_sort_document(cJSON * const item, const cJSON_bool case_sensitive)
+{
+    cJSON *child = item->child;
+    sort_object(item, case_sensitive);
+    for (; child != NULL; child = child->next) { bad_ORD2_sort_document(child, case_sensitive); }
+}
+void good_sort_document(cJSON * const item, const cJSON_bool case_sensitive)
+{
+    cJSON *child = NULL;
+    sort_object(item, case_sensitive);
+    for (child = item->child; child != NULL; child = child->next) { good_sort_document(child, case_sensitive); }
+}
+
 /* LST1 (relinker calls, stale order) */
 static cJSON *sort_list(cJSON *list, const cJSON_bool case_sensitive) { (void)case_sensitive; if (list && list->next) { cJSON *n = list->next; n->next = list; list->next = NULL; n->prev = NULL; list->prev = n; return n; } return list; }
 static void bad_LST1_sort_same_head(cJSON * const object)
